@@ -19,8 +19,8 @@ def rng_for(base_seed, index, salt=''):
 
 
 DEFAULT_PROFILE = dict(
-    n_choices=[1, 2, 2, 3, 3, 4, 5, 6],
-    m_extra_choices=[-2, -1, 0, 0, 1, 2, 3],       # m = max(1, n + extra)
+    n_choices=[1, 2, 2, 2, 3, 3, 3, 4, 4, 5, 6, 7, 8],
+    m_extra_choices=[-2, -1, 0, 0, 1, 2, 3],       # m = min(10, max(1, n + extra))
     families=['lin', 'lin', 'sinlin', 'cubic', 'trig', 'rosen', 'expfit'],
     p_nanregion=0.08,
     x_scales=[0.01, 1.0, 1.0, 1.0, 10.0, 1e3],
@@ -85,7 +85,7 @@ def draw(base_seed, index, prof=None, salt=''):
     n = rnd.choice(P['n_choices'])
     if has_sets or has_reg:
         n = min(n, 4)
-    m = max(1, n + rnd.choice(P['m_extra_choices']))
+    m = min(10, max(1, n + rnd.choice(P['m_extra_choices'])))
     fam = rnd.choice(P['families'])
     if fam == 'expfit' and n < 2:
         fam = 'lin'
